@@ -51,8 +51,10 @@ def run_one(prop, m, jobs=4):
         shutil.rmtree(scratch, ignore_errors=True)
 
 
-def run(prop, jobs=16):
+def run(prop, jobs=16, only=None):
     cat = catalogue(prop)
+    if only:
+        cat = [m for m in cat if m["id"].startswith(only)]
     out = {"total": len(cat), "killed": 0, "survivors": [], "invalid": [], "details": []}
     from concurrent.futures import ThreadPoolExecutor
     with ThreadPoolExecutor(max_workers=max(1, min(8, jobs // 2))) as ex:
@@ -72,4 +74,4 @@ def run(prop, jobs=16):
 
 if __name__ == "__main__":
     prop = sys.argv[1]
-    print(json.dumps(run(prop), indent=1))
+    print(json.dumps(run(prop, only=sys.argv[2] if len(sys.argv) > 2 else None), indent=1))
